@@ -520,6 +520,8 @@ def run(spec, ctx):
     for i in range(spec['n']):
         rng = random.Random('C02/%d/%d/%d' % (spec['seed'], spec['shard'], i))
         mx = spec['maxrows'] if rng.random() < 0.15 else 8
+        if rng.random() < 0.02:
+            mx = 70          # a few long tables in every tier: any size-dependent path of join / xor (hash look-ups, batch sorts) is reached
         case = gen_case(rng, mx)
         ctx.case(case)
         ctx.run_case(case, run_case)
